@@ -270,12 +270,75 @@ def stepC05 (ts : List String) : String :=
     | _, _, _, _ => "bad-op"
   | _ => "bad-op"
 
+def dtypeOf (s : String) : Option Samples.DType :=
+  if s == "uint8" then some .uint8 else if s == "uint16" then some .uint16 else if s == "int64" then some .int64
+  else if s == "float32" then some .float32 else if s == "float64" then some .float64 else none
+
+/-- split `xs` into consecutive parts of the given sizes (in samples of `c` values) -/
+def splitParts (c : Nat) : List Nat → List Nat → List (List Nat)
+  | [], _ => []
+  | p :: ps, xs => xs.take (p * c) :: splitParts c ps (xs.drop (p * c))
+
+/-- integer-valued sample → stored word (float32 bit pattern for 32-bit files) -/
+def wordOf (d v : Nat) : Nat := if d = 32 then (Float32.ofNat v).toBits.toNat else v
+
+def stepC04 (ts : List String) : String :=
+  match ts with
+  | "cwrite" :: d :: dt :: c :: rest =>
+    match d.toNat?, dtypeOf dt, c.toNat?, takeCounted rest with
+    | some d, some dt, some c, some (parts, rest2) =>
+      match takeCounted rest2 with
+      | some (vals, []) =>
+        let ws := vals.map (wordOf d)
+        (match Samples.cwriteAll d dt (splitParts c parts ws) with
+         | .ok bs => s!"ok {hexOf bs}"
+         | .error e => s!"err {e.name}")
+      | _ => "bad-op"
+    | _, _, _, _ => "bad-op"
+  | ["readfil", h] =>
+    match unhex h with
+    | none => "bad-op"
+    | some f =>
+      match Samples.readFil f with
+      | .ok (nb, nc, ns, vs) => s!"ok {nb} {nc} {ns} {vs.length} {showNats vs}".trimAsciiEnd.toString
+      | .error e => s!"err {e.name}"
+  | _ => "bad-op"
+
+def showInts (xs : List Int) : String := " ".intercalate (xs.map toString)
+
+def showExceptI (r : Except Err (List Int)) : String :=
+  match r with
+  | .ok xs => s!"ok {xs.length} {showInts xs}".trimAsciiEnd.toString
+  | .error e => s!"err {e.name}"
+
+/-- `C06 op g s n N C ichan d_0..d_{C-1} x…` -/
+def stepC06 (ts : List String) : String :=
+  match ts with
+  | op :: g :: s :: n :: N :: C :: ich :: rest =>
+    match g.toNat?, s.toNat?, n.toNat?, N.toNat?, C.toNat?, ich.toNat? with
+    | some g, some s, some n, some N, some C, some ich =>
+      match natList? (rest.take C), intList? (rest.drop C) with
+      | some delays, some flat =>
+        if op == "collapse" then showExceptI (Reduce.collapse flat C g s n N)
+        else if op == "read_chan" then showExceptI (Reduce.readChan flat C g s n N ich)
+        else if op == "dedisperse" then showExceptI (Reduce.dedisperse flat C delays g s n N)
+        else if op == "bandpass" then
+          (match Reduce.bandpass flat C g s n N with
+           | .ok (cnt, sums) => s!"ok {cnt} {sums.length} {showInts sums}"
+           | .error e => s!"err {e.name}")
+        else "bad-op"
+      | _, _ => "bad-op"
+    | _, _, _, _, _, _ => "bad-op"
+  | _ => "bad-op"
+
 def step (line : String) : String :=
   match (line.trimAscii.toString.splitOn " ").filter (· ≠ "") with
   | "C03" :: rest => stepC03 rest
   | "C01" :: rest => stepC01 rest
   | "C02" :: rest => stepC02 rest
   | "C05" :: rest => stepC05 rest
+  | "C06" :: rest => stepC06 rest
+  | "C04" :: rest => stepC04 rest
   | "C10" :: rest => stepC10 rest
   | _ => "bad-op"
 
